@@ -20,10 +20,13 @@ def z(n):
 
 
 class G:
-    def __init__(self, rng):
+    def __init__(self, rng, aggs=True, textonly=False):
         self.rng = rng
+        self.aggs = aggs
+        self.textonly = textonly      # no numeric reading of header cells: the program may also scan line 0 (the header row)
         self.nvars = []      # (id, kind) assigned unconditionally earlier in the component list; kind in str|int|float
         self.svars = []
+        self.kvars = []      # (id, key, kind): tracking-keyed variables assigned unconditionally earlier
         self.next_var = 1
         self.uses_lt = False
 
@@ -36,13 +39,16 @@ class G:
             if k < 0.35 and allow_lit:
                 n = r.choice(NUMS)
                 return (str(n), f"(NLit {z(n)})", "int")
-            if k < 0.7:
+            if k < 0.7 and not self.textonly:
                 i = r.choice([1, 2])
                 return (f"#{HDR[i]}", f"(NHdr {i}%nat)", "str")
             if k < 0.8 and self.nvars and allow_var:
                 v, kind = r.choice(self.nvars)
                 return (f"@v{v}", f"(NVar {v})", kind)
-            return r.choice([("line_number()", "NLineNo", "int"), ("count_lines()", "NCountLines", "int"), ("count_scans()", "NCountScans", "int")])
+            if k < 0.86 and self.kvars and allow_var:
+                v, key, kind = r.choice(self.kvars)
+                return (f"@d{v}.{key}", f"(NVarK {v} {ulit(key)})", kind)
+            return r.choice([("line_number()", "NLineNo", "int"), ("count_lines()", "NCountLines", "int"), ("count_scans()", "NCountScans", "int"), ("count()", "NCount", "int")])
         if c < 0.45:
             t, q, _ = self.nexp(d + 1, allow_lit=False)
             return (f"int({t})", f"(NInt {q})", "int")
@@ -154,6 +160,8 @@ class G:
         c = r.random()
         if c < 0.35:
             e, qe, kind = self.nexp(1)
+            if e == "count()":      # "@x = count()" implies onmatch (look-ahead over the other components): outside CORE
+                e, qe = "int(count())", "(NInt NCount)"
             v = self.next_var
             self.next_var += 1
             if not conditional:
@@ -179,11 +187,54 @@ class G:
         k = r.choice([1, 2, 3, 4])
         return (f'@p{v} = pop("k{k}")', f"(Pop {v} {k})")
 
+    def agg(self, conditional):
+        """a bookkeeping function or a tracking-keyed assignment: (text, coq agg term)"""
+        r = self.rng
+        v = self.next_var
+        self.next_var += 1
+        h = r.choice([3, 4])
+        k = r.random()
+        if k < 0.18:
+            return (f"tally(#{HDR[h]})", f"(Tally {h}%nat)")
+        if k < 0.36:
+            return (f"first.d{v}(#{HDR[h]})", f"(First {v} {h}%nat)")
+        if k < 0.5:
+            n = r.choice([2, 3])
+            return (f"every.d{v}(#{HDR[h]}, {n})", f"(Every {v} {h}%nat {n})")
+        if k < 0.64:
+            n = r.choice([1, 2, 5])
+            if not conditional:
+                self.pending = ("n", v, "int")
+            return (f"counter.v{v}({n})", f"(Counter {v} {n})")
+        if k < 0.76:
+            e, qe, _ = self.nexp(1, allow_lit=False)
+            if not conditional:
+                self.pending = ("n", v, "float")
+            return (f"sum.v{v}({e})", f"(Sum {v} {qe})")
+        if k < 0.88:
+            e, qe, _ = self.nexp(1, allow_lit=False)
+            return (f"subtotal.d{v}(#{HDR[h]}, {e})", f"(Subtotal {v} {h}%nat {qe})")
+        e, qe, kind = self.nexp(1)
+        if e == "count()":
+            e, qe = "int(count())", "(NInt NCount)"
+        key = r.choice(["a", "b", "tot"])
+        if not conditional:
+            self.pending = ("k", v, (key, kind))
+        return (f"@d{v}.{key} = {e}", f"(AssignK {v} {ulit(key)} {qe})")
+
     def comp(self):
         r = self.rng
         self.pending = None
         c = r.random()
-        if c < 0.5:
+        if self.aggs and c < 0.3:
+            if r.random() < 0.7:
+                a, qa = self.agg(False)
+                out = (a, f"(CAct (Agg {qa}))" if qa.startswith("(AssignK") else f"(CAgg {qa})")
+            else:
+                b, qb = self.bexp(1)
+                a, qa = self.agg(True)
+                out = (f"{b} -> {a}", f"(CWhen {qb} (Agg {qa}))")
+        elif c < 0.5:
             b, qb = self.bexp(0, top=True)
             out = (b, f"(CB {qb})")
         elif c < 0.8:
@@ -195,17 +246,28 @@ class G:
             out = (f"{b} -> {a}", f"(CWhen {qb} {qa})")
         if self.pending:
             kind, v, k = self.pending
-            (self.nvars if kind == "n" else self.svars).append((v, k) if kind == "n" else v)
+            if kind == "k":
+                self.kvars.append((v, k[0], k[1]))
+            else:
+                (self.nvars if kind == "n" else self.svars).append((v, k) if kind == "n" else v)
         return out
 
 
+TEXT_SCANS = ["*", "0*", "0-3", "0+2+5", "*", "0-4", "0*"]
+
+
 def gen_program(rng, ncomp=None):
-    g = G(rng)
+    textonly = rng.random() < 0.2
+    g = G(rng, textonly=textonly)
     comps = [g.comp() for _ in range(ncomp or rng.choice([1, 2, 2, 3, 3, 4, 5, 6]))]
     if rng.random() < 0.15:
         # a stack that is pushed on every line and popped on some: push ... cond -> pop (same stack)
         k = rng.choice([1, 2])
+        saved = (g.nvars, g.svars)
+        g.nvars, g.svars, savedk, g.kvars = [], [], g.kvars, []      # the push goes to a random earlier position: it must not read a variable assigned after it
         e, qe, _ = g.nexp(1)
+        g.nvars, g.svars = saved
+        g.kvars = savedk
         b, qb = g.bexp(1)
         v = g.next_var
         g.next_var += 1
@@ -213,11 +275,12 @@ def gen_program(rng, ncomp=None):
         comps.append((f'{b} -> @p{v} = pop("k{k}")', f"(CWhen {qb} (Pop {v} {k}))"))
     AND = rng.random() < 0.75
     cw = rng.random() < 0.1
-    scan = rng.choice(SCANS)
-    return {"comps": comps, "AND": AND, "cw": cw, "scan": scan, "uses_lt": g.uses_lt}
+    scan = rng.choice(TEXT_SCANS if textonly else SCANS)
+    return {"comps": comps, "AND": AND, "cw": cw, "scan": scan, "uses_lt": g.uses_lt, "textonly": textonly}
 
 
-def gen_rows(rng):
+def gen_rows(rng, echo=False):
+    """echo: some data rows repeat the header row's own t / u cells (values first seen on line 0 recur)"""
     rows = [HDR[:]]
     for i in range(1, rng.choice([1, 2, 4, 6, 8, 10, 12])):
         if rng.random() < 0.12:
@@ -226,6 +289,8 @@ def gen_rows(rng):
         n = rng.choice(NUMS)
         m = n if rng.random() < 0.3 else rng.choice(NUMS)
         row = [f"r{i}", str(n), str(m), rng.choice(WORDS), rng.choice(WORDS)]
+        if echo and rng.random() < 0.4:
+            row[rng.choice([3, 4])] = rng.choice(["t", "u"])
         if rng.random() < 0.6:
             row.append(rng.choice(XS))
         rows.append(row)
@@ -288,16 +353,19 @@ def case_lit(job, o):
     comps = listlit(prog["comps"], lambda c: c[1])
     rl = listlit(rows, lambda r: listlit(r, ulit))
     if o["exc"]:
-        return f"mkC01 sc0 {blit(prog['AND'])} {blit(prog['cw'])} {comps} {rl} true [] [] [] 0 0"
+        return f"mkC01 sc0 {blit(prog['AND'])} {blit(prog['cw'])} {comps} {rl} true [] [] [] [] 0 0"
     s = o["scanner"]
     sc = f"(mkSc {listlit(s['these'])} {optlit(s['from'])} {optlit(s['to'])} {blit(s['all'])})"
-    pv, st = [], []
+    pv, st, dc = [], [], []
     for k, v in o["vars"].items():
-        if k.startswith("k"):
+        if isinstance(v, dict):
+            vid = 100 + HDR.index(k[len("tally_"):]) if k.startswith("tally_") else int(k[1:])
+            dc.append(f"({vid}, {listlit(list(v.items()), lambda kv: '(' + ulit(str(kv[0])) + ', ' + val_lit(kv[1]) + ')')})")
+        elif k.startswith("k"):
             st.append(f"({k[1:]}, {listlit(list(v), val_lit)})")
         else:
             pv.append(f"({k[1:]}, {val_lit(v)})")
-    return (f"mkC01 {sc} {blit(prog['AND'])} {blit(prog['cw'])} {comps} {rl} false {listlit(o['lines'], lambda r: listlit(r, ulit))} [{'; '.join(pv)}] [{'; '.join(st)}] "
+    return (f"mkC01 {sc} {blit(prog['AND'])} {blit(prog['cw'])} {comps} {rl} false {listlit(o['lines'], lambda r: listlit(r, ulit))} [{'; '.join(pv)}] [{'; '.join(st)}] [{'; '.join(dc)}] "
             f"{o['scan']} {o['match']}")
 
 
